@@ -24,6 +24,7 @@ pub fn target_for(id: &str) -> Option<&'static str> {
     match id {
         "C02" | "C09" | "C10" | "C11" | "C17" => Some("recv"),
         "C12" | "C13" | "C14" | "C15" => Some("hist"),
+        "C01" | "C03" | "C04" | "C05" | "C06" | "C07" | "C08" | "C16" => Some("enc"),
         _ => None,
     }
 }
@@ -33,10 +34,10 @@ fn harness_dir() -> PathBuf {
 }
 
 fn eval(target: &str, data: &[u8], id: &str, known: &Known) -> Vec<Found> {
-    if target == "recv" {
-        fuzz::recv_one(data, &[id], known)
-    } else {
-        fuzz::hist_one(data, &[id], known)
+    match target {
+        "recv" => fuzz::recv_one(data, &[id], known),
+        "hist" => fuzz::hist_one(data, &[id], known),
+        _ => fuzz::enc_one(data, &[id], known),
     }
 }
 
@@ -134,7 +135,11 @@ pub fn run_campaign(id: &str, seed: u64, procs: usize, runs: u64, limit: Duratio
     // ---- launch
     let work = hdir.join("fuzz/work").join(format!("{}-{}", id, target));
     let _ = std::fs::remove_dir_all(&work);
-    let seeds = if target == "recv" { fuzz::recv_seed_corpus() } else { fuzz::hist_seed_corpus() };
+    let seeds = match target {
+        "recv" => fuzz::recv_seed_corpus(),
+        "hist" => fuzz::hist_seed_corpus(),
+        _ => fuzz::enc_seed_corpus(),
+    };
     let mut children = Vec::new();
     for i in 0..procs {
         let pdir = work.join(format!("p{}", i));
